@@ -406,7 +406,9 @@ pub fn execute_with(f: &Fam, presented: Option<&[u8]>, extra: &ExecExtra) -> Obs
         } else {
             let af = SimFile::drawn(archive_bytes.clone());
             let reader = bitar::archive_reader::IoReader::new(af.clone());
-            (crate::cli::run_async(scen::lib_clone(reader, out.clone(), seeds, f.seed_output)), Some(af))
+            // (the livelock budget grows with the bytes to be scanned, as in scen::run_lib_clone_local)
+            let bytes = archive_bytes.len() as u64 * 2 + out.with(|g| g.data.len() as u64) + seeds.iter().map(|s| s.len() as u64).sum::<u64>();
+            (scen::with_budget_for(bytes, || crate::cli::run_async(scen::lib_clone(reader, out.clone(), seeds, f.seed_output))), Some(af))
         };
         ob.outcome = Some(scen::lib_outcome(&r));
         ob.output = Some(out.contents());
